@@ -47,24 +47,29 @@ ChooserFinish(rcv) ==
                          !.out = IF ok THEN Open(G, CB(st.cc), rcv[st.par.sigma + 1]) ELSE 0]
 
 \* ------------------------------------------------------------- the property
+\* (each invariant is evaluated in the state in which its subject has just been fixed)
 Honest == st.d1 = st.q1
 Answered == st.sres = "ok"
 \* the chooser outputs the message of its index
 Correct == (st.pc = "done" /\ Honest /\ Answered) => (st.cres = "ok" /\ st.out = st.par.M[st.par.sigma + 1])
 \* between honest parties the transfer fails exactly when two query exponents coincide
-HonestAbort == (st.pc \in {"finish", "done"} /\ Honest) => ((st.sres = "abort") <=> Collides(st.par, st.cc))
+HonestAbort == (st.pc = "finish" /\ Honest) => ((st.sres = "abort") <=> Collides(st.par, st.cc))
 \* nothing is sent, nothing is output after a refusal
 Refusal == (st.sres = "abort") => (st.a2 = <<>> /\ st.cres # "ok")
 \* whoever made the query: an answered query opens at most one message
-OneOnly == Answered => OpensAtMostOne(st.par.G, st.par.var, st.par.N, st.d1)
+OneOnly == (st.pc = "finish" /\ Answered) => OpensAtMostOne(st.par.G, st.par.var, st.par.N, st.d1)
 \* the curious chooser: with its own secrets a, b, c_j a non-chosen ciphertext opens to M_j only when s_j = 0
 CuriousOpens(j) == Open(st.par.G, CB(st.cc), st.a2[j]) = st.par.M[j]
-Curious == (Answered /\ Honest) =>
-             \A j \in 1..st.par.N : (j # st.par.sigma + 1) =>
-                /\ (EffCOf(st.par, st.cc, j) - CA(st.cc) * CB(st.cc)) % st.par.G.q # 0
-                /\ CuriousOpens(j) <=> (SS(st.par.var, st.par.N, st.sc)[j] = 0)
+Others == (1..st.par.N) \ {st.par.sigma + 1}
+Curious == (st.pc = "finish" /\ Answered /\ Honest) =>
+             LET ev == EffVec(st.par, st.cc)
+                 ab == (CA(st.cc) * CB(st.cc)) % st.par.G.q
+                 s == SS(st.par.var, st.par.N, st.sc)
+             IN \A j \in Others : /\ ev[j] # ab
+                                  /\ CuriousOpens(j) <=> (s[j] = 0)
 \* ... and never two of them unless both blinding exponents vanish (what a reused pair would break)
-CuriousPairs == (Answered /\ Honest) =>
-             \A j, k \in 1..st.par.N : (j < k /\ j # st.par.sigma + 1 /\ k # st.par.sigma + 1 /\ CuriousOpens(j) /\ CuriousOpens(k)) =>
-                (SS(st.par.var, st.par.N, st.sc)[j] = 0 /\ SS(st.par.var, st.par.N, st.sc)[k] = 0)
+CuriousPairs == (st.pc = "finish" /\ Answered /\ Honest) =>
+             LET open == {j \in Others : CuriousOpens(j)}
+                 s == SS(st.par.var, st.par.N, st.sc)
+             IN (Cardinality(open) >= 2) => \A j \in open : s[j] = 0
 =============================================================================
